@@ -138,6 +138,12 @@ Fixpoint utf8_valid (l : bytes) : bool :=
       else false
   end.
 
+Definition opt_utf8 (o : option bytes) : bool :=
+  match o with None => true | Some v => utf8_valid v end.
+(* the invariant of Rust's `String` for the four String fields *)
+Definition strings_utf8 (c : ctx) : bool :=
+  opt_utf8 (c_protocol c) && opt_utf8 (c_host c) && opt_utf8 (c_username c) && opt_utf8 (c_password c).
+
 (* ---- gix_config_value::Boolean::try_from(&BStr) ---------------------------------------- *)
 
 Definition ascii_lower (b : byte) : byte :=
